@@ -364,6 +364,16 @@ pub fn run(args: &[String]) -> i32 {
         );
         merge(&mut rep, "const_types", accs, &stats, json!({"leaves": 14, "languages": ["typescript", "go", "python"]}));
     }
+    let amb_k = if rep.thorough() { 3 } else { 2 };
+    super::common::ambient_family(&mut rep, "ambient_variations", amb_k + 1, |ch| { gen_chain(ch, 2); }, |ch, acc| {
+        let ty = gen_chain(ch, 2);
+        let c = gen_tail(ch, ty, "chain", &[0, 1, 3]);
+        if c.mapping == 3 && !matches!(c.lang, Lang::TypeScript | Lang::Go | Lang::Python) {
+            acc.out_of_scope += 1;
+            return;
+        }
+        check_case(&c, &ch.choices(), acc);
+    });
     require_nonvacuous(&mut rep);
     rep.cov("rule", json!("every type expression of the stated families (unary chains over 17 leaves up to the stated constructor depth; every smart-pointer name and path form; maps and user generics with chain arguments) × 4 positions × 6 languages × 2 configurations × type-mapping tables; the type text at the use site is parsed back into a type tree and compared with the structural expectation; primitives are judged by JSON category and value range. non-trivial = nested type or a mapping table in force."));
     rep.assume("TypeScript prints optionality on the member, so Option wrappers are not compared for TypeScript; Swift's Unicode.Scalar is accepted as string-like for char");
